@@ -35,6 +35,9 @@ type gOpts struct {
 	MaxStmts int
 	// NoTry leaves out try/catch (C04: a caught type error is not "no type error").
 	NoTry bool
+	// Concurrency adds goroutines, channels, mutexes and WaitGroups (C12); the
+	// results never depend on scheduling.
+	Concurrency bool
 }
 
 type gProgram struct {
@@ -106,7 +109,13 @@ func newProgram(r *rand.Rand, o gOpts) gProgram {
 
 	var b strings.Builder
 
-	b.WriteString("import \"fmt\"\nimport \"strings\"\n\n")
+	b.WriteString("import \"fmt\"\nimport \"strings\"\n")
+
+	if o.Concurrency {
+		b.WriteString("import \"sync\"\n")
+	}
+
+	b.WriteString("\n")
 
 	// global constants
 	nc := 2 + r.Intn(4)
@@ -1161,6 +1170,11 @@ func (g *pg) stmt(n int) string {
 	case 29:
 		// closures created in (nested blocks of) a loop body, called after their
 		// iteration has ended (loopclosure_test.go)
+		if g.o.Concurrency && g.loopDep == 0 && g.inFunc == "" && r.Intn(2) == 0 {
+			// (only with the option: the streams of the other checks do not change)
+			return g.concurrencyStmt(n)
+		}
+
 		return g.closureLoopStmt(n)
 
 	default:
@@ -1631,7 +1645,17 @@ func (g *pg) structStmt(n int) string {
 
 	v := vs[r.Intn(len(vs))]
 
-	switch r.Intn(5) {
+	switch r.Intn(7) {
+	case 5:
+		// a bare constant of another kind stored into a field after construction
+		// (float64 field <- integer literal), then arithmetic that shows the stored type
+		g.feat("field-store-constant-other-kind")
+
+		return fmt.Sprintf("%s%s.w = %d\n%sfmt.Printf(\"%s %%T %%v %%v\\n\", %s.w, %s.w, %s.w/4)\n", in, v.name, 1+r.Intn(9), in, g.lbl(), v.name, v.name, v.name)
+	case 6:
+		g.feat("field-store-constant-narrow")
+
+		return fmt.Sprintf("%s%s.cnt = %d\n%sfmt.Printf(\"%s %%T %%v %%v\\n\", %s.cnt, %s.cnt, %s.cnt%%4)\n", in, v.name, 1+r.Intn(99), in, g.lbl(), v.name, v.name, v.name)
 	case 0:
 		g.feat("field-store")
 
